@@ -48,11 +48,24 @@ class Unsupported(Exception):
 def build(spec, hashes=None, chashes=None, fresh_strings=False, plain=False):
     """Construct a BaseProject from a spec.  `hashes[i]` = hash of task i (default i)."""
     S = (lambda s: "".join(list(s))) if fresh_strings else (lambda s: s)
+    # spec["id_seed"]: ID strings are numbered by a permutation instead of by position, so that their
+    # string order differs from the list order (the simulator must not depend on what IDs look like)
+    _perm = {}
+
+    def ID(kind, k):
+        if spec.get("id_seed") is None:
+            return "%s%d" % (kind, k)
+        if kind not in _perm:
+            import random as _r
+            xs = list(range(64))
+            _r.Random("%s-%s" % (spec["id_seed"], kind)).shuffle(xs)
+            _perm[kind] = xs
+        return "%s%02d" % (kind, _perm[kind][k] if k < 64 else k + 64)
     tasks = []
     for i, ts in enumerate(spec["tasks"]):
         t = (BaseTask if plain else HTask)(
             name=ts.get("name", "T%d" % i),
-            ID="t%d" % i,
+            ID=ID("t", i),
             default_work_amount=ts["work"],
             work_amount_progress_of_unit_step_time=ts.get("auto_rate", 1.0),
             default_progress=ts.get("prog", 0.0),
@@ -60,9 +73,9 @@ def build(spec, hashes=None, chashes=None, fresh_strings=False, plain=False):
             need_facility=ts.get("need_fac", False),
             due_time=ts.get("due", None),
             fixing_allocating_worker_id_list=(
-                None if ts.get("fixW") is None else [S("w%d" % k) for k in ts["fixW"]]),
+                None if ts.get("fixW") is None else [S(ID("w", k)) for k in ts["fixW"]]),
             fixing_allocating_facility_id_list=(
-                None if ts.get("fixF") is None else [S("f%d" % k) for k in ts["fixF"]]),
+                None if ts.get("fixF") is None else [S(ID("f", k)) for k in ts["fixF"]]),
             worker_priority_rule=RES_RULE_INV[ts.get("wrule", 0)],
             facility_priority_rule=RES_RULE_INV[ts.get("frule", 1)],
             workplace_priority_rule=WP_RULE_INV[ts.get("wprule", 0)],
@@ -78,7 +91,7 @@ def build(spec, hashes=None, chashes=None, fresh_strings=False, plain=False):
 
     comps = []
     for i, cs in enumerate(spec.get("components", [])):
-        c = (BaseComponent if plain else HComponent)(name="C%d" % i, ID="c%d" % i, space_size=cs.get("size", 1.0))
+        c = (BaseComponent if plain else HComponent)(name="C%d" % i, ID=ID("c", i), space_size=cs.get("size", 1.0))
         c._h = i if chashes is None else chashes[i]
         comps.append(c)
     for i, cs in enumerate(spec.get("components", [])):
@@ -91,16 +104,16 @@ def build(spec, hashes=None, chashes=None, fresh_strings=False, plain=False):
     wid = 0
     teams = []
     for i, tm in enumerate(spec.get("teams", [])):
-        team = BaseTeam(name="Team%d" % i, ID="team%d" % i)
+        team = BaseTeam(name="Team%d" % i, ID=ID("team", i))
         for ws in tm.get("workers", []):
             w = BaseWorker(
-                name="W%d" % wid, ID="w%d" % wid,
+                name="W%d" % wid, ID=ID("w", wid),
                 cost_per_time=ws.get("cost", 0.0), solo_working=ws.get("solo", False),
                 workamount_skill_mean_map=dict(ws.get("skills", {})),
                 workamount_skill_sd_map={},
                 facility_skill_map=dict(ws.get("fac_skills", {})),
                 absence_time_list=list(ws.get("absence", [])),
-                main_workplace_id=(None if ws.get("main_wp") is None else S("wp%d" % ws["main_wp"])),
+                main_workplace_id=(None if ws.get("main_wp") is None else S(ID("wp", ws["main_wp"]))),
                 quality_skill_mean_map={}, quality_skill_sd_map={},
             )
             team.add_worker(w)
@@ -111,10 +124,10 @@ def build(spec, hashes=None, chashes=None, fresh_strings=False, plain=False):
     fid = 0
     wps = []
     for i, ps in enumerate(spec.get("workplaces", [])):
-        wp = BaseWorkplace(name="Wp%d" % i, ID="wp%d" % i, max_space_size=ps.get("cap", 1.0))
+        wp = BaseWorkplace(name="Wp%d" % i, ID=ID("wp", i), max_space_size=ps.get("cap", 1.0))
         for fs in ps.get("facilities", []):
             f = BaseFacility(
-                name=fs.get("name", "F%d" % fid), ID="f%d" % fid,
+                name=fs.get("name", "F%d" % fid), ID=ID("f", fid),
                 cost_per_time=fs.get("cost", 0.0), solo_working=fs.get("solo", False),
                 workamount_skill_mean_map=dict(fs.get("skills", {})),
                 workamount_skill_sd_map={},
